@@ -206,6 +206,8 @@ fn shift(op: &mut Op) {
 
 #[derive(Default)]
 pub struct St {
+    pub fidelity_checked: u64,
+    pub fidelity_failures: u64,
     pub commits: u64,
     pub writes: u64,
     pub syncs: u64,
@@ -349,6 +351,34 @@ fn subsets(n: usize, rng: &mut Rng, sample: usize) -> (Vec<Vec<bool>>, bool) {
 }
 
 #[allow(clippy::too_many_arguments)]
+/// the file as the recorded events say it must be at the end of the execution
+fn reconstruct(evs: &[Ev], base_img: &[u8]) -> Vec<u8> {
+    let mut img = base_img.to_vec();
+    let mut len_now = img.len() as u64;
+    for ev in evs {
+        match ev {
+            Ev::Open { size_after } => len_now = len_now.max(*size_after),
+            Ev::Write { off, data, size_after, ok, .. } => {
+                if !*ok && data.is_empty() {
+                    continue;
+                }
+                apply(&mut img, &W { off: *off, data: data.clone(), size_after: *size_after }, None);
+                len_now = len_now.max(*size_after);
+            }
+            Ev::Sync { size_after, .. } => len_now = len_now.max(*size_after),
+            Ev::Truncate { len } => {
+                img.resize(*len as usize, 0);
+                len_now = *len;
+            }
+            _ => {}
+        }
+        if img.len() < len_now as usize {
+            img.resize(len_now as usize, 0);
+        }
+    }
+    img
+}
+
 fn analyse(
     ctx: &Ctx,
     shard: &mut Shard,
@@ -687,6 +717,7 @@ pub fn run(ctx: &Ctx) -> Shard {
         });
         vio.set_log(None);
         exec::set_direct_writes(false);
+        let real_final = std::fs::read(&path).ok();
         let _ = std::fs::remove_file(&path);
         shard.evaluations += 1;
         match rec {
@@ -708,6 +739,22 @@ pub fn run(ctx: &Ctx) -> Shard {
                 continue;
             }
         };
+        // recorder fidelity: every crash image below is built from the recorded writes, so the record must
+        // account for the file as it really is at the end of the execution.  If the code under test reaches
+        // the file by a route the recorder does not see (a shared writable mapping, a raw system call) the
+        // images would be fiction and every verdict on them a false alarm: no verdict then.
+        if let Some(real) = &real_final {
+            let rebuilt = reconstruct(&evs, &base_img);
+            let n = real.len().min(rebuilt.len());
+            let same = real[..n] == rebuilt[..n] && real[n..].iter().all(|b| *b == 0) && rebuilt[n..].iter().all(|b| *b == 0);
+            if !same {
+                let at = (0..n).find(|i| real[*i] != rebuilt[*i]).unwrap_or(n);
+                shard.inconclusive(format!("[{}] the recorded writes do not reproduce the file (first difference at byte {}, real length {}, rebuilt length {}): the I/O recorder does not see every write of this build, no crash image is judged", wl.label, at, real.len(), rebuilt.len()));
+                st.fidelity_failures += 1;
+                continue;
+            }
+            st.fidelity_checked += 1;
+        }
         let probe_path = scratch.fresh("img");
         let before = st.images;
         analyse(ctx, &mut shard, wl, &evs, &states, &probe_path, &mut st, &mut rng, &base_img);
@@ -736,6 +783,8 @@ pub fn run(ctx: &Ctx) -> Shard {
     shard.count("sync_segments_with_header_and_data_both_pending", st.segments_with_header_and_data_pending);
     shard.count("max_pending_writes_at_a_sync", 0);
     shard.count("max_pending", st.max_pending);
+    shard.count("recordings_whose_writes_reproduce_the_real_file_byte_for_byte", st.fidelity_checked);
+    shard.count("recordings_rejected_because_the_recorder_missed_writes", st.fidelity_failures);
     shard.count("directed_workloads", st.directed);
     shard.count("workloads_recorded_with_direct_writes", st.direct_workloads);
     shard.count("workloads_with_a_reader_open_at_every_writer_begin_and_closed_before_its_commit", st.reader_workloads);
